@@ -136,7 +136,12 @@ func execCase(scratch string, cs runCase, timeout time.Duration) (o outcome) {
 			}
 		}
 	}()
-	if v := notes["verified"]; len(v) > 0 {
+	if v := notes["done"]; len(v) > 0 {
+		// final counters: the driver traces an emulation-mode copy only after
+		// it has dequeued the command (which is what wakes the application), so
+		// the snapshot taken right after Verify() can miss the last copy
+		o.Trace = toInt64Map(v[0])
+	} else if v := notes["verified"]; len(v) > 0 {
 		o.Trace = toInt64Map(v[0])
 	} else if v := notes["run_returned"]; len(v) > 0 {
 		o.Trace = toInt64Map(v[0])
@@ -268,7 +273,7 @@ func planQuick(ck *vlib.Check, ws []*workload) []runCase {
 		}
 		p := ss[r.Intn(k)]
 		cs := mkCase(w, p, c, "emu1-"+w.Name, ck.Seed*1000+int64(len(cases)))
-		cs.Parallel = r.Chance(1, 5)
+		cs.Parallel = r.Chance(1, 5) && w.parallelOK(c.Arch)
 		cases = append(cases, cs)
 		for _, c := range w.classes() {
 			if c.Timing || c.NGPU > 1 || c.UnifiedMem {
@@ -298,7 +303,7 @@ func planQuick(ck *vlib.Check, ws []*workload) []runCase {
 			k = 2
 		}
 		cs := mkCase(pr.w, ss[r.Intn(k)], pr.c, fmt.Sprintf("rot%02d-%s", 24-n, pr.w.Name), ck.Seed*1000+500+int64(n))
-		cs.Parallel = r.Chance(1, 5)
+		cs.Parallel = r.Chance(1, 5) && pr.w.parallelOK(pr.c.Arch)
 		cases = append(cases, cs)
 		n--
 	}
@@ -319,7 +324,7 @@ func planThorough(ck *vlib.Check, ws []*workload) []runCase {
 			}
 			for si, p := range pickSizes(w, c, r.ForkN(w.Name, ci), n, false) {
 				cs := mkCase(w, p, c, fmt.Sprintf("t-%s-%d-%d", w.Name, ci, si), ck.Seed*100000+int64(len(cases)))
-				cs.Parallel = r.Chance(1, 4)
+				cs.Parallel = r.Chance(1, 4) && w.parallelOK(c.Arch)
 				cases = append(cases, cs)
 			}
 		}
